@@ -64,7 +64,7 @@ func main() {
 	}
 	debug.SetGCPercent(400)
 	code := 0
-	defer func() { pprof.StopCPUProfile(); os.Exit(code) }()
+	defer func() { pprof.StopCPUProfile(); cleanupHarnessSnap(); os.Exit(code) }()
 	switch os.Args[1] {
 	case "selftest":
 		code = cmdSelftest(flags)
